@@ -81,18 +81,18 @@ pub(crate) fn validate(input: &DataType) -> Result<()> {
     validate_child_parents_attrs(&attrs.child_parents_attrs, &type_paths, &mut errors);
     validate_where_attrs(&attrs.where_attrs, &type_paths, &mut errors);
 
-    let data_type_attrs_by_kind: Vec<(&TraitAttrCore, Kind)> = attrs.iter_for_kind_core(&Kind::OwnedInto, false).map(|x| (x, Kind::OwnedInto))
-        .chain(attrs.iter_for_kind_core(&Kind::RefInto, false).map(|x| (x, Kind::RefInto)))
-        .chain(attrs.iter_for_kind_core(&Kind::OwnedIntoExisting, false).map(|x| (x, Kind::OwnedIntoExisting)))
-        .chain(attrs.iter_for_kind_core(&Kind::RefIntoExisting, false).map(|x| (x, Kind::RefIntoExisting)))
-        .chain(attrs.iter_for_kind_core(&Kind::FromOwned, false).map(|x| (x, Kind::FromOwned)))
-        .chain(attrs.iter_for_kind_core(&Kind::FromRef, false).map(|x| (x, Kind::FromRef)))
-        .chain(attrs.iter_for_kind_core(&Kind::OwnedInto, true).map(|x| (x, Kind::OwnedInto)))
-        .chain(attrs.iter_for_kind_core(&Kind::RefInto, true).map(|x| (x, Kind::RefInto)))
-        .chain(attrs.iter_for_kind_core(&Kind::OwnedIntoExisting, true).map(|x| (x, Kind::OwnedIntoExisting)))
-        .chain(attrs.iter_for_kind_core(&Kind::RefIntoExisting, true).map(|x| (x, Kind::RefIntoExisting)))
-        .chain(attrs.iter_for_kind_core(&Kind::FromOwned, true).map(|x| (x, Kind::FromOwned)))
-        .chain(attrs.iter_for_kind_core(&Kind::FromRef, true).map(|x| (x, Kind::FromRef)))
+    let data_type_attrs_by_kind: Vec<(&TraitAttrCore, Kind, bool)> = attrs.iter_for_kind_core(&Kind::OwnedInto, false).map(|x| (x, Kind::OwnedInto, false))
+        .chain(attrs.iter_for_kind_core(&Kind::RefInto, false).map(|x| (x, Kind::RefInto, false)))
+        .chain(attrs.iter_for_kind_core(&Kind::OwnedIntoExisting, false).map(|x| (x, Kind::OwnedIntoExisting, false)))
+        .chain(attrs.iter_for_kind_core(&Kind::RefIntoExisting, false).map(|x| (x, Kind::RefIntoExisting, false)))
+        .chain(attrs.iter_for_kind_core(&Kind::FromOwned, false).map(|x| (x, Kind::FromOwned, false)))
+        .chain(attrs.iter_for_kind_core(&Kind::FromRef, false).map(|x| (x, Kind::FromRef, false)))
+        .chain(attrs.iter_for_kind_core(&Kind::OwnedInto, true).map(|x| (x, Kind::OwnedInto, true)))
+        .chain(attrs.iter_for_kind_core(&Kind::RefInto, true).map(|x| (x, Kind::RefInto, true)))
+        .chain(attrs.iter_for_kind_core(&Kind::OwnedIntoExisting, true).map(|x| (x, Kind::OwnedIntoExisting, true)))
+        .chain(attrs.iter_for_kind_core(&Kind::RefIntoExisting, true).map(|x| (x, Kind::RefIntoExisting, true)))
+        .chain(attrs.iter_for_kind_core(&Kind::FromOwned, true).map(|x| (x, Kind::FromOwned, true)))
+        .chain(attrs.iter_for_kind_core(&Kind::FromRef, true).map(|x| (x, Kind::FromRef, true)))
        .collect();
 
     for member in input.get_members() {
@@ -292,9 +292,9 @@ fn validate_dedicated_member_attrs<T, U: Fn(&T) -> Option<&TypePath>>(attrs: &Ve
     }
 }
 
-fn validate_parent_attrs(named_root_struct: bool, parent_attrs: &[ParentAttr], data_type_attrs_by_kind: &[(&TraitAttrCore, Kind)], errors: &mut Errors) {
+fn validate_parent_attrs(named_root_struct: bool, parent_attrs: &[ParentAttr], data_type_attrs_by_kind: &[(&TraitAttrCore, Kind, bool)], errors: &mut Errors) {
     for p in parent_attrs {
-        for (attr, _) in data_type_attrs_by_kind.iter().filter(|(x, kind)| !kind.is_from() && (p.container_ty.is_none() || &x.ty == p.container_ty.as_ref().unwrap())) {
+        for (attr, _, _) in data_type_attrs_by_kind.iter().filter(|(x, kind, _)| !kind.is_from() && (p.container_ty.is_none() || &x.ty == p.container_ty.as_ref().unwrap())) {
             if let Some(fields) = p.child_fields.as_ref() { fields.iter().for_each(|f| {
                 if (attr.type_hint == TypeHint::Struct || named_root_struct) && !f.named_fields() && f.attrs.is_empty() {
                     let s = f.this_member.to_token_stream().to_string(); 
@@ -303,7 +303,7 @@ fn validate_parent_attrs(named_root_struct: bool, parent_attrs: &[ParentAttr], d
             })}
         }
 
-        for _ in data_type_attrs_by_kind.iter().filter(|(x, kind)|kind.is_from() && (p.container_ty.is_none() || &x.ty == p.container_ty.as_ref().unwrap())) {
+        for _ in data_type_attrs_by_kind.iter().filter(|(x, kind, _)|kind.is_from() && (p.container_ty.is_none() || &x.ty == p.container_ty.as_ref().unwrap())) {
             if let Some(fields) = p.child_fields.as_ref() { fields.iter().for_each(|f| {
                 for i in f.sub_path.iter() {
                     if i.1.is_none() {
@@ -315,9 +315,9 @@ fn validate_parent_attrs(named_root_struct: bool, parent_attrs: &[ParentAttr], d
     }
 }
 
-fn validate_fields(input: &Struct, data_type_attrs: &DataTypeAttrs, data_type_attrs_by_kind: &[(&TraitAttrCore, Kind)], type_paths: &HashSet<&TypePath>, errors: &mut Errors) {
-    let into_type_paths = unique_type_paths(data_type_attrs_by_kind.iter().filter_map(|(x, kind)|(!kind.is_from() && !kind.is_into_existing()).then_some(&x.ty)));
-    let from_type_paths = unique_type_paths(data_type_attrs_by_kind.iter().filter_map(|(x, kind)|(x.update.is_none() && kind.is_from()).then_some(&x.ty)));
+fn validate_fields(input: &Struct, data_type_attrs: &DataTypeAttrs, data_type_attrs_by_kind: &[(&TraitAttrCore, Kind, bool)], type_paths: &HashSet<&TypePath>, errors: &mut Errors) {
+    let into_type_paths = unique_type_paths(data_type_attrs_by_kind.iter().filter_map(|(x, kind, _)|(!kind.is_from() && !kind.is_into_existing()).then_some(&x.ty)));
+    let from_type_paths = unique_type_paths(data_type_attrs_by_kind.iter().filter_map(|(x, kind, _)|(x.update.is_none() && kind.is_from()).then_some(&x.ty)));
 
     for field in &input.fields {
         for ghost_attr in field.attrs.ghost_attrs.iter() {
@@ -376,14 +376,14 @@ fn validate_fields(input: &Struct, data_type_attrs: &DataTypeAttrs, data_type_at
     }
 
     if !input.named_fields {
-        for (data_type_attr, kind) in data_type_attrs_by_kind {
+        for (data_type_attr, kind, fallible) in data_type_attrs_by_kind {
             if data_type_attr.quick_return.is_none() && data_type_attr.type_hint == TypeHint::Struct {
                 for field in &input.fields {
                     if field.attrs.ghost(&data_type_attr.ty, kind).is_some() || field.attrs.has_parent_attr(&data_type_attr.ty) {
                         continue;
                     }
 
-                    if let Some(field_attr) = field.attrs.applicable_field_attr(kind, false, &data_type_attr.ty) {
+                    if let Some(field_attr) = field.attrs.applicable_field_attr(kind, *fallible, &data_type_attr.ty) {
                         if kind.is_from() {
                             if field_attr.attr.member.is_none() && field_attr.attr.action.is_none() {
                                 errors.insert(format!("Member trait instruction #[{}(...)] for member {} should specify corresponding field name of the {} or an action", field_attr.original_instr, field.member.to_token_stream(), data_type_attr.ty.path), field.member.span());
@@ -423,7 +423,7 @@ fn validate_variant_fields(input: &Variant, data_type_attrs: &DataTypeAttrs, _ty
                         continue;
                     }
 
-                    if let Some(field_attr) = field.attrs.applicable_field_attr(&kind, false, &data_type_attr.core.ty) {
+                    if let Some(field_attr) = field.attrs.applicable_field_attr(&kind, data_type_attr.fallible, &data_type_attr.core.ty) {
                         if kind == Kind::FromOwned || kind == Kind::FromRef {
                             if field_attr.attr.member.is_none() && field_attr.attr.action.is_none() {
                                 errors.insert(format!("Member trait instruction #[{}(...)] for member {} should specify corresponding field name of the {} or an action", field_attr.original_instr, field.member.to_token_stream(), data_type_attr.core.ty.path), field.member.span());
